@@ -395,7 +395,7 @@ def gen_item(rng, i):
 # so that the cfg-dependent bounds the macro puts on USED type parameters (DeBin / SerBin / Serialize / DeserializeOwned) are exercised
 def codec_decls():
     out = []
-    def decl(name, header, inst, body, mk, checks):
+    def decl(name, header, inst, body, mk, checks, extra=''):
         # a nested value travels whole inside the `<field>_full` variant of an Option + recurse field: the user's own type must be encodable then
         src = ("#[cfg(feature = \"ns\")] #[allow(unused_imports)] use nanoserde::{SerBin, DeBin};\n#[derive(Debug, Clone, PartialEq, Difference)]\n#[cfg_attr(feature = \"ns\", derive(nanoserde::SerBin, nanoserde::DeBin))]\n#[cfg_attr(feature = \"sd\", derive(serde::Serialize, serde::Deserialize))]\npub struct " + name + "N { pub x: i64, pub y: Option<String>, #[difference(skip)] pub z: u8 }\n"
                f"impl Mk for {name}N {{ fn mk(s: u64) -> Self {{ {name}N {{ x: Mk::mk(s), y: Mk::mk(s + 1), z: Mk::mk(s / 2) }} }} }}\n"
@@ -407,7 +407,7 @@ def codec_decls():
                "            let bytes = nanoserde::SerBin::serialize_bin(&a.diff_ref(&b));\n            let back: Vec<<" + inst + " as StructDiff>::Diff> = nanoserde::DeBin::deserialize_bin(&bytes).map_err(|e| format!(\"nanoserde borrowed: {:?}\", e))?;\n            check(&a.clone().apply(back)).map_err(|m| format!(\"via nanoserde (borrowed): {}\", m))?;\n        }\n"
                "        #[cfg(feature = \"sd\")] {\n            let bytes = bincode::serialize(&a.diff(&b)).map_err(|e| format!(\"bincode: {:?}\", e))?;\n            let back: Vec<<" + inst + " as StructDiff>::Diff> = bincode::deserialize(&bytes).map_err(|e| format!(\"bincode owned: {:?}\", e))?;\n            check(&a.clone().apply(back)).map_err(|m| format!(\"via bincode (owned): {}\", m))?;\n"
                "            let bytes = bincode::serialize(&a.diff_ref(&b)).map_err(|e| format!(\"bincode: {:?}\", e))?;\n            let back: Vec<<" + inst + " as StructDiff>::Diff> = bincode::deserialize(&bytes).map_err(|e| format!(\"bincode borrowed: {:?}\", e))?;\n            check(&a.clone().apply(back)).map_err(|m| format!(\"via bincode (borrowed): {}\", m))?;\n        }\n"
-               "        if !a.diff(&a).is_empty() { return Err(format!(\"a.diff(&a) is not empty\")); }\n    }\n    Ok(())\n}\n")
+               "        if !a.diff(&a).is_empty() { return Err(format!(\"a.diff(&a) is not empty\")); }\n" + extra + "    }\n    Ok(())\n}\n")
         out.append((name, src, ['codec_generic']))
     decl('K0', "pub struct K0<T: Clone + PartialEq + std::fmt::Debug, U: Clone + PartialEq + std::fmt::Debug + 'static = i64>", "K0<i64, String>",
          "    pub a: T,\n    pub b: Option<U>,\n    pub c: Vec<T>,\n    #[difference(collection_strategy = \"ordered_array_like\")]\n    pub d: Vec<U>,\n    #[difference(recurse)]\n    pub e: K0N,\n    #[difference(skip)]\n    pub f: T,\n",
@@ -428,7 +428,13 @@ def codec_decls():
     decl('K7', "#[difference(setters, expose = \"K7Delta\")]\npub struct K7<T>\nwhere T: Clone + PartialEq + std::fmt::Debug, Vec<T>: Clone", "K7<String>",
          "    pub a: T,\n    #[difference(setter_name = \"put_b\")]\n    pub b: Vec<T>,\n    #[difference(skip_setter)]\n    pub c: Option<T>,\n    #[difference(recurse)]\n    pub d: K7N,\n",
          "impl<T: Mk + Clone + PartialEq + std::fmt::Debug> Mk for K7<T> { fn mk(s: u64) -> Self { K7 { a: Mk::mk(s), b: Mk::mk(s + 1), c: Mk::mk(s + 2), d: Mk::mk(s + 3) } } }\n",
-         "            if r.a != b.a || r.b != b.b || r.c != b.c || r.d.x != b.d.x || r.d.y != b.d.y || r.d.z != a.d.z { return Err(format!(\"round trip: {:?} != {:?}\", r, b)); }\n")
+         "            if r.a != b.a || r.b != b.b || r.c != b.c || r.d.x != b.d.x || r.d.y != b.d.y || r.d.z != a.d.z { return Err(format!(\"round trip: {:?} != {:?}\", r, b)); }\n",
+         extra="        #[cfg(feature = \"gs\")] {\n            // generated setters on a generic struct: store the value, report an entry that replays\n            let mut m = a.clone(); let mut copy = a.clone();\n"
+               "            if let Some(e) = m.set_a_with_diff(b.a.clone()) { copy.apply_single(e); } else if a.a != b.a { return Err(format!(\"setter a silent on a change\")); }\n"
+               "            if let Some(e) = m.put_b(b.b.clone()) { copy.apply_single(e); } else if a.b != b.b { return Err(format!(\"setter b silent on a change\")); }\n"
+               "            if let Some(e) = m.set_d_with_diff(b.d.clone()) { copy.apply_single(e); } else if a.d != b.d { return Err(format!(\"setter d silent on a change\")); }\n"
+               "            if m.a != b.a || m.b != b.b || m.d != b.d || m.c != a.c { return Err(format!(\"setters did not store: {:?}\", m)); }\n"
+               "            if copy.a != m.a || copy.b != m.b || copy.d.x != m.d.x || copy.d.y != m.d.y { return Err(format!(\"replay of setter entries: {:?} != {:?}\", copy, m)); }\n        }\n")
     decl('K8', "pub struct K8<T: Clone + PartialEq + std::fmt::Debug, U: Clone + PartialEq + std::fmt::Debug>", "K8<i64, String>",
          "    #[difference(skip)]\n    pub a: T,\n    pub b: U,\n    #[difference(skip)]\n    pub c: Vec<T>,\n",
          "impl<T: Mk + Clone + PartialEq + std::fmt::Debug, U: Mk + Clone + PartialEq + std::fmt::Debug> Mk for K8<T, U> { fn mk(s: u64) -> Self { K8 { a: Mk::mk(s), b: Mk::mk(s + 1), c: Mk::mk(s + 2) } } }\n",
